@@ -256,6 +256,13 @@ def configs(tier: str) -> list[Config]:
         out.append(Config('MPBFixed', {'nmin': nmin, 'maxval': 5 * u, 'neg_maxval': -2 * u}))
         out.append(Config('MPBFixed', {'nmin': nmin, 'maxval': 5 * u, 'negzero': False, 'nan': True, 'inf': True}))
         out.append(Config('MPBFixed', {'nmin': nmin, 'maxval': 5 * u, 'nan_value': 0, 'inf_value': 2 * u}))
+    # NaN and infinity options that differ from each other
+    for nan, inf in ((True, False), (False, True)):
+        out += [Config('MPBFixed', {'nmin': -1, 'maxval': 5, 'nan': nan, 'inf': inf}),
+                Config('MPFixed', {'nmin': -2, 'nan': nan, 'inf': inf}),
+                Config('MPBFloat', {'p': 2, 'emin': 0, 'maxval': 6, 'nan': nan, 'inf': inf}),
+                Config('MPSFloat', {'p': 2, 'emin': -1, 'nan': nan, 'inf': inf}),
+                Config('MPFloat', {'p': 2, 'nan': nan, 'inf': inf})]
     for nbits in range(1, (4 if quick else 5) + 1):
         for scale in (-2, 0, 1):
             for signed in (True, False):
